@@ -168,7 +168,9 @@ def expand_procedures(func: ast.FunctionDef, resolver, depth: int = 0) -> ast.Fu
 class Flow:
     def __init__(self, func: ast.FunctionDef, file: str = "", consts: dict | None = None,
                  self_name: str | None = None, keep_arms: bool = False, resolver=None, _depth: int = 0, _env: dict | None = None,
-                 proc_resolver=None, func_resolver=None):
+                 proc_resolver=None, func_resolver=None, records: dict | None = None):
+        # records: {class name: (field, ..)} of immutable record types (NamedTuple): `X(u, v).a` is read as `u`
+        self.records = records or {}
         # proc_resolver: name -> FunctionDef of a helper PROCEDURE of the same class, expanded in place as statements
         # func_resolver: name -> FunctionDef of a small pure MODULE-LEVEL helper function called by its bare name (inlined)
         self.func_resolver = func_resolver
@@ -272,7 +274,18 @@ class Flow:
         return self.lookup(n.id)
 
     def e_Attribute(self, n):
-        return ("attr", self.ev(n.value), n.attr)
+        base = self.ev(n.value)
+        # a field of a record built on the spot / bound to a local: X(u, v).a == u  (immutable record types only)
+        if base[0] == "call" and base[1][0] == "global" and base[1][1] in self.records and base[1][1] not in self.env:
+            fields = self.records[base[1][1]]
+            if n.attr in fields and not any(a[0] == "star" for a in base[2]) and all(k != "**" for k, _ in base[3]):
+                i = fields.index(n.attr)
+                if i < len(base[2]):
+                    return base[2][i]
+                kw = dict(base[3])
+                if n.attr in kw:
+                    return kw[n.attr]
+        return ("attr", base, n.attr)
 
     def e_JoinedStr(self, n):
         parts = []
@@ -553,7 +566,7 @@ class Flow:
                 if preset[p_] is None:
                     return None
         sub = Flow(callee, self.file, keep_arms=False, resolver=self.resolver, _depth=self._depth + 1, _env=preset, consts=self.consts,
-                   func_resolver=self.func_resolver)
+                   func_resolver=self.func_resolver, records=self.records)
         rets = [(f.value, list(f.guards)) for f in sub.facts if f.kind == "return"]
         if not rets or any(f.kind in ("store", "augstore", "attrstore", "append", "mutate") for f in sub.facts):
             return None
